@@ -285,7 +285,7 @@ Proof. exact (C09_repeated_executions_do_not_grow gen_fns gen_neutral). Qed.
         rp = json.load(open(ck.replay_file))["replay"]
         cases = [dict(rp["case"], id=1)] if "case" in rp else make_cases(2, 4)
     else:
-        cases = make_cases(24 if quick else 300, 6 if quick else 12)
+        cases = make_cases(16 if quick else 300, 5 if quick else 12)
         if broken:
             # failing-input search: a broken obligation is followed by a larger observation run
             cases += make_cases(60 if quick else 300, 10, first_id=len(cases) + 1)
